@@ -296,6 +296,11 @@ class Interp(ExprMixin):
         fn = node.func
         args = []
         for a in node.args:
+            if isinstance(a, ast.Starred):
+                v = self.eval(a.value, st)
+                if isinstance(v, Tup):
+                    args.extend(v.items)        # f(*known_sequence)
+                    continue
             args.append(self.eval(a, st))
         kwargs = {}
         for k in node.keywords:
